@@ -260,7 +260,9 @@ STATE_T = (b'', b'T32', b'T120', b'T255')
 STATE_L = (b'', b'L1', b'L4', b'L64', b'L=L%;')
 STATE_O = (b'', b'O0', b'O3', b'O6')
 STATE_M = (b'', b'MN', b'ML', b'MS')
-STATE_SHIFT = (b'', b'<', b'>', b'>>>>>>>', b'<<<<<<<')
+STATE_SHIFT = (b'', b'<', b'>', b'>>>>>>>', b'<<<<<<<',
+               # saturate at the limit, then come back: the clamp must not remember the excess
+               b'><', b'<>', b'>>><', b'<<<>>', b'>>>>>>><<', b'<<<<<<<>>')
 STATE_NOTE = (b'C', b'C#', b'D-', b'D', b'E-', b'E', b'F', b'F#', b'G', b'A-', b'A', b'B-', b'B', b'B8', b'A2.',
               b'G64..', b'N1', b'N37.', b'N84', b'P8', b'P2.', b'N0')
 
